@@ -28,9 +28,15 @@
    says whether AddNode replaces a different non-empty address (as shipped: FALSE - the first
    address wins, so a member that learns of a re-join from a snapshot keeps the old address);
    ClientPerCall says whether the transport builds its client on the current connection for
-   every message (as shipped: FALSE - one cached client per peer id). *)
+   every message (as shipped: FALSE - one cached client per peer id).
+
+   Raft accepts one configuration change at a time: a second one that reaches the leader (Boot stands for
+   it) before the leader has APPLIED the previous one is silently replaced by an empty entry.  AckOnApply
+   says whether the hand-shake / the removal is acknowledged only once the change has been applied (as
+   shipped: FALSE - it was acknowledged when proposed, so JoinDropped acknowledges a join that never
+   happens; with TRUE the proposal is repeated until applied, i.e. it is only made when it is not dropped). *)
 EXTENDS Integers, Sequences, FiniteSets, TLC
-CONSTANTS Nodes, Boot, MaxLog, SnapshotHasBook, BootHasAddr, ForgetClientOnRemove, AddOverwrites, ClientPerCall
+CONSTANTS Nodes, Boot, MaxLog, SnapshotHasBook, BootHasAddr, ForgetClientOnRemove, AddOverwrites, ClientPerCall, AckOnApply
 NoAddr == <<0, 0>>
 
 VARIABLES log,      \* Seq([op, n, addr])
@@ -47,6 +53,8 @@ Empty == [x \in {} |-> 0]
 Put(f, x, v) == [y \in DOMAIN f \cup {x} |-> IF y = x THEN v ELSE f[y]]
 AddNode(b, n, a) == IF n \in DOMAIN b /\ b[n] # NoAddr /\ ~(AddOverwrites /\ a # NoAddr) THEN b ELSE Put(b, n, a)   \* as shipped: first non-empty address wins
 DropNode(b, n) == [y \in DOMAIN b \ {n} |-> b[y]]
+\* the leader has a configuration change it has not applied yet: a further one is dropped by raft
+Pending == applied[Boot] < Len(log)
 StepB(b, e) == IF e.op = "join" THEN AddNode(b, e.n, e.addr) ELSE DropNode(b, e.n)
 
 Init == /\ gen = [m \in Nodes |-> IF m = Boot THEN 1 ELSE 0]
@@ -56,7 +64,7 @@ Init == /\ gen = [m \in Nodes |-> IF m = Boot THEN 1 ELSE 0]
         /\ applied = [m \in Nodes |-> 0] /\ up = [m \in Nodes |-> m = Boot] /\ members = {Boot}
         /\ dead = [m \in Nodes |-> {}]
 \* the join hand-shake: n asks member m; m proposes Join(n, addr) and streams its book (+ n) back
-Join(n, m) == /\ n \notin members /\ m \in members /\ up[m] /\ Len(log) < MaxLog
+Join(n, m) == /\ n \notin members /\ m \in members /\ up[m] /\ Len(log) < MaxLog /\ ~Pending
               /\ gen' = [gen EXCEPT ![n] = @ + 1]
               /\ LET a == <<n, gen[n] + 1>> IN
                  /\ log' = Append(log, [op |-> "join", n |-> n, addr |-> a])
@@ -65,7 +73,15 @@ Join(n, m) == /\ n \notin members /\ m \in members /\ up[m] /\ Len(log) < MaxLog
               /\ members' = members \cup {n} /\ up' = [up EXCEPT ![n] = TRUE]
               /\ applied' = [applied EXCEPT ![n] = 0] /\ snapIdx' = [snapIdx EXCEPT ![n] = 0]
               /\ snapBook' = [snapBook EXCEPT ![n] = Empty] /\ dead' = [dead EXCEPT ![n] = {}]
-Leave(n) == /\ n \in members /\ n # Boot /\ Len(log) < MaxLog
+\* as shipped: acknowledged although dropped - the node is up and believes it is a member, the log has no entry
+JoinDropped(n, m) == /\ ~AckOnApply /\ Pending /\ n \notin members /\ m \in members /\ up[m]
+                     /\ gen' = [gen EXCEPT ![n] = @ + 1]
+                     /\ book' = [book EXCEPT ![n] = [y \in DOMAIN book[m] \cup {n} |-> IF y = n THEN <<n, gen[n] + 1>> ELSE book[m][y]]]
+                     /\ members' = members \cup {n} /\ up' = [up EXCEPT ![n] = TRUE]
+                     /\ applied' = [applied EXCEPT ![n] = 0] /\ snapIdx' = [snapIdx EXCEPT ![n] = 0]
+                     /\ snapBook' = [snapBook EXCEPT ![n] = Empty] /\ dead' = [dead EXCEPT ![n] = {}]
+                     /\ UNCHANGED log
+Leave(n) == /\ n \in members /\ n # Boot /\ Len(log) < MaxLog /\ ~Pending
             /\ log' = Append(log, [op |-> "leave", n |-> n, addr |-> NoAddr])
             /\ members' = members \ {n}
             /\ up' = [up EXCEPT ![n] = FALSE]        \* the removed node stops
@@ -103,7 +119,7 @@ Restart(m) == /\ up[m]
               /\ applied' = [applied EXCEPT ![m] = snapIdx[m]]
               /\ dead' = [dead EXCEPT ![m] = {}]
               /\ UNCHANGED <<log, snapIdx, snapBook, up, members, gen>>
-Next == \/ \E n, m \in Nodes : Join(n, m)
+Next == \/ \E n, m \in Nodes : Join(n, m) \/ JoinDropped(n, m)
         \/ \E n, m \in Nodes : InstallSnapshot(n, m)
         \/ \E n \in Nodes : Leave(n) \/ Apply(n) \/ Compact(n) \/ Restart(n)
 Spec == Init /\ [][Next]_vars
